@@ -1406,7 +1406,53 @@ def flatten_new_bases(modname, tree, inv):
                 if cn not in below and any(isinstance(b, ast.Name) and b.id in below for b in c.bases):
                     below.add(cn)
                     grew = True
-        if any(isinstance(n, ast.Name) and n.id in ("super", "__class__") for cn in below if cn != bname for n in ast.walk(classes[cn])):
+        # ... except for the one idiom `super().__init__(..)` as a statement of a direct subclass's __init__, which is replaced by the
+        # base initialiser's text
+        b_init = next((x for x in items if x.name == "__init__"), None)
+        init_calls = {}
+        bad_super = False
+        for cn in below:
+            if cn == bname:
+                continue
+            c = classes[cn]
+            sup = [n for n in ast.walk(c) if isinstance(n, ast.Name) and n.id in ("super", "__class__")]
+            if not sup:
+                continue
+            if c not in subs or b_init is None or len(sup) != 1 or len(c.bases) != 1:
+                if c in subs:
+                    bad_super = True
+                continue              # deeper classes reach their own parent through super(): unaffected
+            k_init = next((x for x in c.body if isinstance(x, ast.FunctionDef) and x.name == "__init__"), None)
+            st_ = next((x for x in (k_init.body if k_init else []) if isinstance(x, ast.Expr) and isinstance(x.value, ast.Call) and isinstance(x.value.func, ast.Attribute) and
+                        x.value.func.attr == "__init__" and isinstance(x.value.func.value, ast.Call) and x.value.func.value.func is sup[0] and not x.value.func.value.args), None)
+            if st_ is None:
+                bad_super = True
+            else:
+                init_calls[cn] = (k_init, st_)
+        if bad_super:
+            continue
+        if b_init is not None:
+            if any(isinstance(n, ast.Return) and n.value is not None for n in ast.walk(b_init)) or _has_return_in_loop_or_with(_helper_body(b_init)):
+                continue
+            # a subclass with an __init__ of its own that does not call the base initialiser never ran it: nothing to copy there
+        ok_bind = True
+        bound = {}
+        for cn, (k_init, st_) in init_calls.items():
+            try:
+                _bind.counter = getattr(_bind, "counter", {})
+                prefix, mapping = _bind(b_init, st_.value, True)
+                body_ = [copy.deepcopy(x) for x in _helper_body(b_init)]
+                body_ = [_Renamer(mapping).visit(x) for x in body_]
+                body_ = _conv(body_, "stmt", None)
+                # the base initialiser's `self` is the subclass initialiser's first parameter
+                kself = k_init.args.args[0].arg
+                bself = b_init.args.args[0].arg
+                if kself != bself:
+                    body_ = [_Renamer({bself: kself}).visit(x) for x in body_]
+                bound[cn] = prefix + body_
+            except _NotInlinable:
+                ok_bind = False
+        if not ok_bind:
             continue
         for c in subs:
             for b in c.bases:
@@ -1424,6 +1470,10 @@ def flatten_new_bases(modname, tree, inv):
         if not ok:
             continue
         for c in subs:
+            if c.name in init_calls:
+                k_init, st_ = init_calls[c.name]
+                k_init.body[k_init.body.index(st_):k_init.body.index(st_) + 1] = bound[c.name] or [ast.copy_location(ast.Pass(), st_)]
+                ast.fix_missing_locations(k_init)
             own = {x.name for x in c.body if isinstance(x, FUNC)} | {t.id for x in c.body if isinstance(x, ast.Assign) for t in x.targets if isinstance(t, ast.Name)}
             add = [copy.deepcopy(x) for x in items if x.name not in own]
             # keep a leading docstring in place
